@@ -106,7 +106,11 @@ def tid_checks(tier, rng, report):
              "tid_evaluations": 0, "tid_failures": 0, "tid_foreign_datagrams_delivered": 0, "tid_foreign_not_delivered": 0}
     base_cache = {}
     out = []
+    import fake_net
     for base, c in gen_cases(tier, rng):
+        if not fake_net.can_drive(base["default_tmo"], base["max_tmo"], base["retries"], base["max_bs"], base["wrap"]):
+            stats["tid_cases_skipped_by_the_driver"] = stats.get("tid_cases_skipped_by_the_driver", 0) + 1
+            continue
         key = (tuple(base["options"]), base["retries"], tuple(base["events"]))
         if key not in base_cache:
             base_cache[key] = T.run_impl(base)
